@@ -186,8 +186,11 @@ impl<'a> Session<'a> {
         self.stats.add("takes", 1);
     }
     pub fn set_frequency(&mut self, f: f32) {
-        let (kind, fl, fr) = if f.is_nan() || f <= 0.0 {
+        // f = 0 must stop the counter; negative and NaN frequencies are outside every documented range
+        let (kind, fl, fr) = if f == 0.0 {
             ("zero", 0, 0)
+        } else if f.is_nan() || f < 0.0 {
+            ("any", 0, 0)
         } else if f.is_infinite() {
             ("sat", 0, 0)
         } else {
@@ -202,8 +205,10 @@ impl<'a> Session<'a> {
         self.stats.add("set_frequency", 1);
     }
     pub fn set_period(&mut self, per: f32) {
-        let (kind, fl, fr) = if per.is_nan() || per < 0.0 || per.is_infinite() || (per == 0.0 && per.is_sign_negative()) {
+        let (kind, fl, fr) = if per == f32::INFINITY {
             ("zero", 0, 0)
+        } else if per.is_nan() || per < 0.0 || (per == 0.0 && per.is_sign_negative()) {
+            ("any", 0, 0)
         } else if per == 0.0 || (1.0f32 / per).is_infinite() {
             ("sat", 0, 0)
         } else {
